@@ -1,5 +1,6 @@
 import Proofs.CoherenceWeights
 import Proofs.MutWireGenEq
+import Proofs.OptWrapGenEq
 
 /-!
 # C02 — after any mutation an agent is coherent: optimizers, targets and critics follow
@@ -349,5 +350,310 @@ open MutWireGenEq in
 example : coherent (genMutate1 { multi := false, pol := 0, algo := "TD3", bandit := false } hpChoice td3) = true := by
   rw [gen_mutate1_eq _ _ _ td3_inv td3_envOK]
   decide +kernel
+
+set_option linter.unusedSimpArgs false
+/-! ### the constructor of `OptimizerWrapper` (agilerl/algorithms/core/wrappers.py) inside the model
+
+`Model/Coherence.lean` `wrapInit` / `inferNames` / `inferLr` / `wrapStateDict` / `wrapLoad` model the class the wiring above
+abstracts as `rebuildOpt`; `Gen/OptWrapGen.lean` is generated from its source, `Proofs/OptWrapGenEq.lean` proves the two
+equal. -/
+
+/-- the groups of a constructed wrapper, optimizer by optimizer: one group per network handed in, in order, holding
+    exactly that network's parameter objects, every group with the lr that was passed — in all three branches of
+    `__init__`, for ANY number of networks (`hs` excludes only the degenerate call below) -/
+theorem C02_wrapper_holds_networks (multi : Bool) (cls : Nat) (nets : List WNet) (n : Nat) (lr : WLr) (o : WOptim)
+    (h : wrapOptim multi cls nets n lr = some o) (hs : multi = true ∨ nets.length = 1 ∨ 1 < n) :
+    o.groups = nets.map fun x => { cells := x.cells, lr := lr.val } := by
+  unfold wrapOptim at h
+  cases multi with
+  | true =>
+    simp only [if_true] at h
+    split at h
+    · cases h
+    · cases h
+      simp only [WOptim.groups, List.flatMap_map]
+      clear hs
+      rename_i hne
+      clear hne
+      induction nets with
+      | nil => rfl
+      | cons x r ih => simp only [List.flatMap_cons, List.map_cons, List.map_nil, List.singleton_append] at ih ⊢; rw [ih]
+  | false =>
+    simp only [Bool.false_eq_true, if_false] at h
+    split at h
+    · split at h
+      · cases h; simp [WOptim.groups]
+      · cases h
+    · rename_i hc
+      match nets, h with
+      | x :: r, h =>
+        cases h
+        rcases hs with hs | hs | hs
+        · cases hs
+        · have : r = [] := by simpa using hs
+          subst this
+          simp [WOptim.groups]
+        · have : r = [] := by
+            cases r with
+            | nil => rfl
+            | cons y t => exfalso; apply hc; simp; omega
+          subst this
+          simp [WOptim.groups]
+
+
+/-- **degenerate call (witness).**  Without `multiagent`, a LIST of two networks passed with ONE attribute name falls
+    into the single-network branch: the optimizer is built over `networks[0]` only and the second network is silently
+    not trained.  No algorithm of the library (nor `reinit_opt`, which passes one network per name) makes this call. -/
+theorem C02_wrapper_drops_networks_witness :
+    ∃ o, wrapOptim false 0 [⟨1, [10, 11]⟩, ⟨2, [20]⟩] 1 ⟨5, 1 / 1000⟩ = some o ∧
+      o.groups ≠ [⟨1, [10, 11]⟩, ⟨2, [20]⟩].map fun x : WNet => { cells := x.cells, lr := (1 / 1000 : Rat) } := by
+  refine ⟨.single 0 [{ cells := [10, 11], lr := ⟨5, 1 / 1000⟩ }], by decide +kernel, by decide +kernel⟩
+
+/-- what `wrapInit` returns: the names and lr name it was given (or inferred), and groups as above -/
+theorem C02_wrapper_init_groups (multi : Bool) (cls : Nat) (arg : WArg) (lr : WLr) (names : Option (List String))
+    (lrName : Option String) (c : List (String × Nat)) (w : Wrapper) (h : wrapInit multi cls arg lr names lrName c = some w)
+    (hs : multi = true ∨ arg.nets.length = 1 ∨ 1 < w.names.length) :
+    w.optim.groups = arg.nets.map (fun x => { cells := x.cells, lr := lr.val }) ∧ w.lr = lr ∧ w.multi = multi ∧
+      w.names ≠ [] := by
+  unfold wrapInit at h
+  simp only at h
+  split at h
+  · cases h
+  · rename_i ns l _
+    split at h
+    · cases h
+    · rename_i hne
+      cases ho : wrapOptim multi cls arg.nets ns.length lr with
+      | none => simp [ho] at h
+      | some o =>
+        simp only [ho, Option.map_some, Option.some.injEq] at h
+        subst h
+        exact ⟨C02_wrapper_holds_networks multi cls arg.nets ns.length lr o ho hs, rfl, rfl, by simpa using hne⟩
+
+/-! #### the abstract constructor of the wiring model replaced by the GENERATED one -/
+
+open OptWrapGenEq OptWrapGen in
+/-- **`reinit_opt`, single network.**  The wrapper the generated `OptimizerWrapper.__init__` builds for
+    `networks=<module>` holds one group = the module's current parameters in order with the lr passed — exactly the group
+    `rebuildOpt` (the model of `OptimizerWrapper(…)` in the mutation wiring) assigns when the optimizer is registered
+    for one single-module network attribute. -/
+theorem C02_source_translation_wrapper_single (nets : List NetAttr) (lrs : List Rat) (o : Opt) (k : Nat) (m : Mod)
+    (hn : o.nets = [k]) (hm : modsAt nets k = [m]) (cls id : Nat) (lr : WLr) (hl : lr.val = lrs.getD o.lr 0)
+    (kw : Option (List (String × Val))) (hk : KwOK (kwOf kw)) (ns : List String) (hns : ns ≠ []) (l : String) (frame : Val) :
+    ((ok? (OptimizerWrapper.init (.record []) (.cls cls) (eArg (.one ⟨id, m.params⟩)) (eLr lr) (eKw kw) (eNames (some ns))
+        (eStr (some l)) (.bool false) frame)).bind dWrapper).map (·.optim.groups) = some (rebuildOpt nets lrs o).groups := by
+  rw [gen_init_single_eq cls ⟨id, m.params⟩ lr kw hk ns l frame]
+  cases hw : wrapInit false cls (.one ⟨id, m.params⟩) lr (some ns) (some l) [] with
+  | none =>
+    exfalso
+    simp [wrapInit, wrapOptim, WArg.nets, hns] at hw
+  | some w =>
+    have := (C02_wrapper_init_groups false cls _ lr _ _ _ w hw (Or.inr (Or.inl rfl))).1
+    simp only [Option.map_some, this, rebuildOpt, expected, hn, WArg.nets, paramsOf, modsAt] at hm ⊢
+    cases hk' : nets[k]? with
+    | none => simp [modsAt, hk'] at hm
+    | some n =>
+      simp only [modsAt, hk'] at hm
+      simp [paramsOf, hk', hm, hl]
+
+open OptWrapGenEq OptWrapGen in
+/-- **`reinit_opt`, one optimizer over several networks** (PPO).  `ws` = the networks `[getattr(individual, n) for n in
+    network_names]`, whose parameter lists are the current parameters of the registered networks (`hc`): the generated
+    constructor yields one group per network, in registry order, each with the agent's CURRENT lr — `rebuildOpt`'s groups. -/
+theorem C02_source_translation_wrapper_joint (nets : List NetAttr) (lrs : List Rat) (o : Opt) (ws : List WNet)
+    (hc : ws.map (·.cells) = expected nets o) (cls i : Nat) (lr : WLr) (hl : lr.val = lrs.getD o.lr 0)
+    (kw : Option (List (String × Val))) (hk : KwOK (kwOf kw)) (ns : List String) (l : String) (frame : Val)
+    (h1 : 1 < ws.length) (h3 : ws.length = ns.length) :
+    ((ok? (OptimizerWrapper.init (.record []) (.cls cls) (eArg (.many i ws)) (eLr lr) (eKw kw) (eNames (some ns))
+        (eStr (some l)) (.bool false) frame)).bind dWrapper).map (·.optim.groups) = some (rebuildOpt nets lrs o).groups := by
+  rw [gen_init_joint_eq cls i ws lr kw hk ns l frame h1 h3]
+  cases hw : wrapInit false cls (.many i ws) lr (some ns) (some l) [] with
+  | none =>
+    exfalso
+    have hns : ns ≠ [] := by intro h; subst h; simp at h3; subst h3; simp at h1
+    have h2 : 1 < ns.length := by omega
+    simp [wrapInit, wrapOptim, WArg.nets, hns, h1, h2, h3] at hw
+  | some w =>
+    have hnm : w.names = ns := by
+      simp only [wrapInit] at hw
+      split at hw
+      · cases hw
+      · rename_i ns' l' heq
+        simp only [Option.map_some, Option.some.injEq, Prod.mk.injEq] at heq
+        split at hw
+        · cases hw
+        · cases ho : wrapOptim false cls (WArg.many i ws).nets ns'.length lr with
+          | none => simp [ho] at hw
+          | some o' => simp [ho] at hw; rw [← hw]; exact heq.1.symm
+    have := (C02_wrapper_init_groups false cls _ lr _ _ _ w hw (Or.inr (Or.inr (by rw [hnm]; omega)))).1
+    simp only [Option.map_some, this, rebuildOpt, WArg.nets, ← hc, List.map_map, hl]
+    rfl
+
+open OptWrapGenEq OptWrapGen in
+/-- **`reinit_opt`, multi-agent.**  `networks=getattr(individual, network_names[0])` is the list of the sub-agents'
+    modules: the generated constructor yields one optimizer PER module, in order, each with one group = that module's
+    current parameters and the agent's current lr — flattened, `rebuildOpt`'s groups for an optimizer registered for
+    ONE list attribute (`OptShapeOK`).  Holds for any number of sub-agents ≥ 1. -/
+theorem C02_source_translation_wrapper_multi (nets : List NetAttr) (lrs : List Rat) (o : Opt) (ws : List WNet)
+    (hc : ws.map (·.cells) = expected nets o) (cls i : Nat) (lr : WLr) (hl : lr.val = lrs.getD o.lr 0)
+    (kw : Option (List (String × Val))) (hk : KwOK (kwOf kw)) (ns : List String) (hns : ns ≠ []) (l : String) (frame : Val)
+    (hne : ws ≠ []) :
+    ((ok? (OptimizerWrapper.init (.record []) (.cls cls) (eArg (.many i ws)) (eLr lr) (eKw kw) (eNames (some ns))
+        (eStr (some l)) (.bool true) frame)).bind dWrapper).map (·.optim.groups) = some (rebuildOpt nets lrs o).groups := by
+  rw [gen_init_multi_eq cls i ws lr kw hk ns l frame hne]
+  cases hw : wrapInit true cls (.many i ws) lr (some ns) (some l) [] with
+  | none =>
+    exfalso
+    simp [wrapInit, wrapOptim, WArg.nets, hns, hne] at hw
+  | some w =>
+    have := (C02_wrapper_init_groups true cls _ lr _ _ _ w hw (Or.inl rfl)).1
+    simp only [Option.map_some, this, rebuildOpt, WArg.nets, ← hc, List.map_map, hl]
+    rfl
+
+/-! #### name inference (`network_names` / `lr_name` not passed: the constructors of the algorithms) -/
+
+theorem find_first (A B : List String) (r : String) (hr : lrish r = true) (hnr : r ∉ A) :
+    (A ++ r :: B).find? lrish = some r ↔ ∀ a ∈ A, lrish a = false := by
+  induction A with
+  | nil => simp [hr]
+  | cons a t ih =>
+    have hne : a ≠ r := fun h => hnr (by simp [h])
+    have hnt : r ∉ t := fun h => hnr (by simp [h])
+    by_cases h : lrish a = true
+    · simp [List.find?_cons, h, hne]
+    · have h' : lrish a = false := by simpa using h
+      rw [List.cons_append, List.find?_cons, h']
+      simp only [ih hnt, List.mem_cons, forall_eq_or_imp, h', true_and]
+
+theorem inferLr_of_matches (A B : List String) (r : String) (hr : lrish r = true) (c : List (String × Nat)) (lr : WLr)
+    (hms : lrMatches c lr = A ++ r :: B) : inferLr c lr = some r ↔ (A ++ r :: B).find? lrish = some r := by
+  unfold inferLr
+  rw [hms]
+  match A, B with
+  | [], [] => simp [hr]
+  | [], b :: t => simp
+  | [a], B => simp
+  | a :: x :: u, B => simp
+
+/-- **(iii) when the inferred learning-rate name is the right one.**  The optimizer is built with `lr=self.<r>`
+    (attribute `r` of the parent container holds the very object passed, its name looks like a learning rate).  The scan
+    returns `r` **iff no EARLIER attribute whose name looks like a learning rate holds the identical object.** -/
+theorem C02_lr_name_inference_exact (pre post : List (String × Nat)) (r : String) (lr : WLr) (hid : lr.id ≠ 0)
+    (hr : lrish r = true) (hnd : ∀ p ∈ pre, p.1 ≠ r) :
+    inferLr (pre ++ (r, lr.id) :: post) lr = some r ↔ ∀ p ∈ pre, p.2 = lr.id → lrish p.1 = false := by
+  have hms : lrMatches (pre ++ (r, lr.id) :: post) lr = lrMatches pre lr ++ r :: lrMatches post lr := by
+    simp [lrMatches, List.filter_append, List.filter_cons, hid]
+  have hmem : ∀ a, a ∈ lrMatches pre lr ↔ ∃ p ∈ pre, p.2 = lr.id ∧ p.1 = a := by
+    intro a
+    simp only [lrMatches, List.mem_map, List.mem_filter]
+    constructor
+    · rintro ⟨p, ⟨hp, hc⟩, rfl⟩
+      refine ⟨p, hp, ?_, rfl⟩
+      simp at hc
+      exact hc.2.symm
+    · rintro ⟨p, hp, h1, rfl⟩
+      exact ⟨p, ⟨hp, by simp [hid, h1]⟩, rfl⟩
+  have hnr : r ∉ lrMatches pre lr := by
+    intro h
+    obtain ⟨p, hp, _, h2⟩ := (hmem r).mp h
+    exact hnd p hp h2
+  rw [inferLr_of_matches _ _ r hr _ lr hms, find_first _ _ r hr hnr]
+  constructor
+  · intro h p hp h1
+    exact h p.1 ((hmem p.1).mpr ⟨p, hp, h1, rfl⟩)
+  · intro h a ha
+    obtain ⟨p, hp, h1, rfl⟩ := (hmem a).mp ha
+    exact h p hp h1
+
+/-- **witness for the open finding `C06-lr-name-by-identity`.**  `lr_actor` and `lr_critic` hold the SAME float object
+    (identity 7): the critic optimizer, built with `lr=self.lr_critic`, is registered under `lr_actor` … -/
+theorem C02_lr_name_inference_witness :
+    inferLr [("actor", 1), ("lr_actor", 7), ("critic", 2), ("lr_critic", 7)] ⟨7, 1 / 1000⟩ = some "lr_actor" ∧
+    -- … while distinct objects of equal VALUE are told apart
+    inferLr [("actor", 1), ("lr_actor", 7), ("critic", 2), ("lr_critic", 8)] ⟨8, 1 / 1000⟩ = some "lr_critic" := by
+  constructor <;> decide +kernel
+
+open OptWrapGenEq OptWrapGen in
+/-- the same over the GENERATED `_infer_lr_name`, for every parent container and lr object -/
+theorem C02_source_translation_lr_name_inference (fs : List (String × Val)) (lr : WLr) (c : List (String × Nat))
+    (hl : getField fs "lr" = some (eLr lr)) :
+    ok? (OptimizerWrapper._infer_lr_name (.record fs) (eContainer c)) = (inferLr c lr).map Val.str :=
+  gen_infer_lr_name fs lr c hl
+
+open OptWrapGenEq OptWrapGen in
+/-- **`OptShapeOK` discharged for what the constructor produces.**  The generated `_infer_network_attr_names` of a
+    multi-agent wrapper returns the attributes holding the very list object; if exactly one attribute holds it (no alias),
+    the wrapper — and with it the `OptimizerConfig` the registry records — is registered for ONE network attribute. -/
+theorem C02_source_translation_multi_registered_for_one (fs : List (String × Val)) (i : Nat) (ws : List WNet)
+    (c : List (String × Nat)) (hm : getField fs "multiagent" = some (.bool true))
+    (hn : getField fs "networks" = some (eSelfNets (.many i ws))) (name : String) (pre post : List (String × Nat))
+    (hc : c = pre ++ (name, i) :: post) (h1 : ∀ p ∈ pre, p.2 ≠ i) (h2 : ∀ p ∈ post, p.2 ≠ i) :
+    OptimizerWrapper._infer_network_attr_names (.record fs) (eContainer c) = .ok (.list 0 [.str name]) := by
+  rw [gen_infer_network_attr_names fs true (.many i ws) c hm hn]
+  subst hc
+  have e1 : pre.filter (fun p => p.2 == i) = [] := by
+    rw [List.filter_eq_nil_iff]; intro p hp; simpa using h1 p hp
+  have e2 : post.filter (fun p => p.2 == i) = [] := by
+    rw [List.filter_eq_nil_iff]; intro p hp; simpa using h2 p hp
+  simp [inferNames, WArg.listId, List.filter_append, List.filter_cons, e1, e2]
+
+open OptWrapGenEq OptWrapGen in
+/-- **(ii) round trip**: `w.load_state_dict(w.state_dict())` of the generated methods succeeds on a single-optimizer
+    wrapper and changes nothing the model keeps (groups, parameter objects, lrs) -/
+theorem C02_source_translation_state_dict_roundtrip (fs : List (String × Val)) (c : Nat) (gs : List Val) (st : Val)
+    (hm : getField fs "multiagent" = some (.bool false)) (ho : getField fs "optimizer" = some (.optimizer c gs st))
+    (W : Wrapper) (hw : dWrapper (.record fs) = some W) :
+    ∃ sd w', OptimizerWrapper.state_dict (.record fs) = .ok sd ∧
+      OptimizerWrapper.load_state_dict (.record fs) sd = .ok w' ∧ dWrapper w' = some W :=
+  gen_state_dict_roundtrip_single fs c gs st hm ho W hw
+
+/-- model-level round trip for BOTH shapes: loading a wrapper's own state dict is the identity … -/
+theorem C02_state_dict_roundtrip (w : Wrapper) (hs : (w.multi = false ∧ ∃ c gs, w.optim = .single c gs) ∨
+    (w.multi = true ∧ ∃ os, w.optim = .multi os)) : wrapLoad w (wrapStateDict w) = some w := by
+  have hg : ∀ gs : List WGroup, loadGroups gs (savedOf gs) = some gs := by
+    intro gs
+    have h1 : gs.map (·.cells.length) = (savedOf gs).map (·.n) := by simp [savedOf, List.map_map, Function.comp_def]
+    simp only [loadGroups, h1, if_true, Option.some.injEq]
+    induction gs with
+    | nil => rfl
+    | cons g r ih =>
+      have : r.map (·.cells.length) = (savedOf r).map (·.n) := by simp [savedOf, List.map_map, Function.comp_def]
+      simp only [savedOf, List.map_cons, List.zipWith_cons_cons] at ih ⊢
+      rw [ih this]
+  rcases hs with ⟨hm, c, gs, ho⟩ | ⟨hm, os, ho⟩
+  · obtain ⟨m, ns, l, lr, o⟩ := w
+    simp only at hm ho; subst hm; subst ho
+    simp [wrapLoad, wrapStateDict, hg]
+  · obtain ⟨m, ns, l, lr, o⟩ := w
+    simp only at hm ho; subst hm; subst ho
+    have hmulti : ∀ os : List (Nat × List WGroup), loadMulti os (os.map fun o => savedOf o.2) = some os := by
+      intro os
+      induction os with
+      | nil => rfl
+      | cons o r ih => simp [loadMulti, hg, ih]
+    simp [wrapLoad, wrapStateDict, hmulti]
+
+/-- … and loading ANY state dict never changes which parameter objects the groups hold -/
+theorem C02_load_keeps_parameters (gs gs' : List WGroup) (sv : List WSaved) (h : loadGroups gs sv = some gs') :
+    gs'.map (·.cells) = gs.map (·.cells) := by
+  unfold loadGroups at h
+  split at h
+  · rename_i hl
+    cases h
+    have hlen : gs.length = sv.length := by simpa using congrArg List.length hl
+    clear hl
+    induction gs generalizing sv with
+    | nil => simp
+    | cons g r ih =>
+      cases sv with
+      | nil => simp at hlen
+      | cons s t => simp [ih t (by simpa using hlen)]
+  · cases h
+
+/-- a rebuilt optimizer is coherent — the clause of `Coherent` the generated constructor establishes -/
+theorem C02_rebuilt_optimizer_coherent (nets : List NetAttr) (lrs : List Rat) (o : Opt) :
+    optCoherent nets lrs (rebuildOpt nets lrs o) = true := by
+  simp [optCoherent, rebuildOpt, expected, List.map_map, Function.comp_def]
+
 
 end Coherence
